@@ -172,7 +172,13 @@ struct Member<U: CircuitUni> {
     proof_tree: Value,
     valid: bool,
     cfg: ProverCfg,
+    /// verdict on the proof object as the prover returned it, before any serialization
+    in_memory_ok: Option<bool>,
     _p: core::marker::PhantomData<U>,
+}
+
+fn in_memory<U: CircuitUni>(p: &U::Proof, cfg: &ProverCfg) -> Option<bool> {
+    observe(|| U::verify(p, cfg)).ok().map(|r| r.is_ok())
 }
 
 fn verdict<U: CircuitUni>(t: &Value, cfg: &ProverCfg) -> Result<Result<(), String>, String> {
@@ -197,7 +203,8 @@ macro_rules! chal_proof {
             let mut r = circuit.runner();
             r.set_public_inputs(&rep.publics).map_err(|e| format!("{e:?}"))?;
             let traces = r.run().map_err(|e| format!("{e:?}"))?;
-            let cfg = ProverCfg { npo: BuilderOpts { poseidon: true, recompose: true }, ..ProverCfg::default() };
+            // every other proof registers (and so lists) the recompose table before the Poseidon table
+            let cfg = ProverCfg { npo: BuilderOpts { poseidon: true, recompose: true }, npo_reversed: seed % 2 == 1, ..ProverCfg::default() };
             let (keys, _) = pipe::keygen::<$uni>(&circuit, &cfg).map_err(|f| f.msg)?;
             let proof = pipe::prove::<$uni>(&keys, &traces, &cfg, None).map_err(|f| f.msg)?;
             Ok((proof, cfg))
@@ -266,7 +273,7 @@ fn population<U: ChalProof>(ctx_seed: u64, idx: u64, tier: Tier, out: &mut RunOu
     if r.sat && !r.precond_violated {
         if let Ok(h) = c04::honest::<U>(&p, &cfg, hs) {
             if let Ok(proof) = pipe::prove::<U>(&h.keys, &h.traces, &cfg, None) {
-                pop.push(Member { label: "honest_primitive", proof_tree: serde_json::to_value(&proof).unwrap(), valid: true, cfg: cfg.clone(), _p: Default::default() });
+                pop.push(Member { label: "honest_primitive", proof_tree: serde_json::to_value(&proof).unwrap(), valid: true, cfg: cfg.clone(), in_memory_ok: in_memory::<U>(&proof, &cfg), _p: Default::default() });
             }
             // invalid-trace proof: flip the `out` limb of the first ALU op
             let d = U::D;
@@ -283,7 +290,7 @@ fn population<U: ChalProof>(ctx_seed: u64, idx: u64, tier: Tier, out: &mut RunOu
                 });
                 if let Ok(bad) = pipe::prove::<U>(&h.keys, &h.traces, &cfg, Some(tamper)) {
                     if U::verify(&bad, &cfg).is_err() {
-                        pop.push(Member { label: "invalid_trace_primitive", proof_tree: serde_json::to_value(&bad).unwrap(), valid: false, cfg: cfg.clone(), _p: Default::default() });
+                        pop.push(Member { label: "invalid_trace_primitive", proof_tree: serde_json::to_value(&bad).unwrap(), valid: false, cfg: cfg.clone(), in_memory_ok: in_memory::<U>(&bad, &cfg), _p: Default::default() });
                     } else {
                         out.count("forged_proof_unexpectedly_valid_skipped");
                     }
@@ -297,14 +304,14 @@ fn population<U: ChalProof>(ctx_seed: u64, idx: u64, tier: Tier, out: &mut RunOu
     let lp = crate::gprog::generate_linear::<U::BF, U::EF>(&mut rng, 8);
     if let Ok(h) = c04::honest::<U>(&lp, &cfg, hs) {
         if let Ok(proof) = pipe::prove::<U>(&h.keys, &h.traces, &cfg, None) {
-            pop.push(Member { label: "honest_linear", proof_tree: serde_json::to_value(&proof).unwrap(), valid: true, cfg: cfg.clone(), _p: Default::default() });
+            pop.push(Member { label: "honest_linear", proof_tree: serde_json::to_value(&proof).unwrap(), valid: true, cfg: cfg.clone(), in_memory_ok: in_memory::<U>(&proof, &cfg), _p: Default::default() });
         }
     }
     // proof with non-primitive tables
     let (order, d, rate) = U::chal_params();
     let h = chal::gen_history(&mut rng, order, d.max(1), rate, 10, false);
     if let Ok(Ok((proof, ccfg))) = observe(|| U::chal_proof(&h, hs)) {
-        pop.push(Member { label: "honest_with_npo_tables", proof_tree: serde_json::to_value(&proof).unwrap(), valid: true, cfg: ccfg, _p: Default::default() });
+        pop.push(Member { label: "honest_with_npo_tables", proof_tree: serde_json::to_value(&proof).unwrap(), valid: true, in_memory_ok: in_memory::<U>(&proof, &ccfg), cfg: ccfg, _p: Default::default() });
     }
     (pop, p)
 }
@@ -322,6 +329,22 @@ pub fn one_run<U: ChalProof>(ctx: &Ctx, idx: u64, only: Option<(&str, Vec<MFault
         // control: verdict of the untouched member
         let base = verdict::<U>(&m.proof_tree, &m.cfg);
         out.evals += 1;
+        // the tree is the proof after one trip through its Serialize / Deserialize impls
+        // (a verifier panic on the deserialized proof counts as a rejection)
+        let flat: Result<(), String> = match &base {
+            Ok(r) => r.clone(),
+            Err(pm) => Err(format!("verifier panicked: {pm}")),
+        };
+        if let (r, Some(mem)) = (&flat, m.in_memory_ok) {
+            if r.is_ok() != mem && only.is_none() {
+                out.violate(
+                    format!("roundtrip_changes_verdict:json_tree:{}", m.label),
+                    format!("a {} proof {} as the prover returned it and {} after serialization and deserialization ({})", m.label, if mem { "verifies" } else { "is rejected" }, if r.is_ok() { "verifies" } else { "is rejected" }, r.clone().err().unwrap_or_default().chars().take(200).collect::<String>()),
+                    detail(&[], "json_tree"),
+                );
+                continue;
+            }
+        }
         match &base {
             Ok(r) if r.is_ok() == m.valid => out.count(&format!("population_{}", m.label)),
             _ => {
